@@ -101,7 +101,7 @@ def gen_static_module(rng):
     if rng.random() < 0.1:
         head.append("# -*- coding: utf-8 -*-")
     if rng.random() < 0.55:
-        head.append(rng.choice(('"""Module docstring."""', "'''Multi\nline\ndocstring'''", '"doc"', "r'raw doc'")))
+        head.append(rng.choice(('""', "''''''", '"""Module docstring."""', "'''Multi\nline\ndocstring'''", '"doc"', "r'raw doc'")))
     if rng.random() < 0.2:
         head.append("# a comment between docstring and futures")
         head.append("")
